@@ -108,11 +108,14 @@ def ARead.pollLoop (a : ARead) (e : Entry) (f : RSide → RSide × Res Bytes) : 
     | (r, .err k) => ({ a with r, slots := a.slots.set e none }, .err k)
     | (r, .panic) => ({ a with r }, .panic)
 
+/-- fuel of the model's retry loops beyond one round per remaining script item of the inner
+stream: enough for every loop that ends at all (`Props.C12.async_read_terminates`,
+`async_write_terminates`); running out of it means the real call never returns -/
 def loopFuel : Nat := 4
 
 /-- an entry point called by task `t`: `replace_waker`, then the loop -/
 def ARead.poll (a : ARead) (e : Entry) (t : Nat) (f : RSide → RSide × Res Bytes) : ARead × Out :=
-  ({ a with slots := a.slots.set e (some t) }).pollLoop e f loopFuel
+  ({ a with slots := a.slots.set e (some t) }).pollLoop e f (loopFuel + a.r.script.length)
 
 /-! ### write half -/
 
@@ -175,7 +178,7 @@ def AWrite.pollWrite (a : AWrite) (t : Nat) (src : Bytes) : AWrite × Out :=
   let a := { a with slots := a.slots.set .a (some t) }
   match a.shutdownGate with
   | (a', some o) => (a', o)
-  | (a', none) => a'.writeLoop src loopFuel
+  | (a', none) => a'.writeLoop src (loopFuel + a'.w.script.length)
 
 def AWrite.pollFlush (a : AWrite) (t : Nat) : AWrite × Out :=
   let a := { a with slots := a.slots.set .b (some t) }
